@@ -252,6 +252,7 @@ def run(ck, F):
     rule_fixed_prefixes(ck, F, MAKE)
     rule_schema_namespace(ck, F)
     rule_component_read_out_of_turn(ck, F)
+    rule_namespace_names_compared_verbatim(ck, F)
     # ---- R4
     MERGE = A.merge_fn(F)
     b = F.lib.body(MERGE) if MERGE else None
@@ -768,3 +769,86 @@ def _set_of_existing_abbreviations(F, B, operand):
         if not good:
             return False
     return True
+
+
+# text steps that make two different names alike (what passes through them is no longer the name itself)
+NAME_NORMALISERS = ("trim", "trim_start", "trim_end", "trim_matches", "trim_start_matches", "trim_end_matches", "trim_left", "trim_right",
+                    "to_lowercase", "to_uppercase", "to_ascii_lowercase", "to_ascii_uppercase", "make_ascii_lowercase", "make_ascii_uppercase",
+                    "replace", "replacen", "strip_prefix", "strip_suffix", "split_once", "rsplit_once", "split", "rsplit", "split_terminator",
+                    "split_whitespace", "get", "get_unchecked", "index", "chars", "bytes", "as_bytes", "nfc", "nfkc", "unwrap_or", "unwrap_or_default",
+                    "unwrap", "expect", "next", "last", "nth", "truncate")
+LOOSE_COMPARISONS = ("eq_ignore_ascii_case", "starts_with", "ends_with", "contains", "cmp::PartialOrd::lt", "cmp::PartialOrd::le", "cmp::PartialOrd::gt",
+                     "cmp::PartialOrd::ge")
+
+
+def rule_namespace_names_compared_verbatim(ck, F, rule="R3"):
+    """Namespace names are compared character for character (Namespaces in XML 1.0, section 2.3): `http://example.com/orders` and
+    `http://example.com/orders/` are two namespaces. Whether a namespace is already known — the test every allocation, every switch
+    and every lookup of the registry rests on — is therefore decided by `==` on the full name. A comparison after trimming, case
+    folding or cutting makes two namespaces one registry entry: one prefix and one module for both, the second one's types written
+    under the first one's name. Decided on the MIR of every non-test function and closure of the library, helpers taken in: where an
+    operand of a comparison comes from the `namespace` member of a `Namespace`, neither operand went through a normalising text
+    step, and the comparison is equality."""
+    wide = M.IDENTITY_CALLS + tuple("::" + n_ for n_ in NAME_NORMALISERS) + ("Option::<T>::map", "Option::<T>::and_then")
+    n_cmp = 0
+    for b in scans.bodies(F.lib):
+        path = b["path"]
+        if "yaserde_tests" in path or "tests::" in path or "helpers_content" in path:
+            continue
+        own = [t for _, t in M.Body(b).calls() if (M.Body.callee_decl(t) or "").endswith(("cmp::PartialEq::eq", "cmp::PartialEq::ne") + LOOSE_COMPARISONS)]
+        B0 = M.Body(b)
+        if not own and not any(True for _bb, t in B0.calls() if F.lib.body((t.get("func") or {}).get("inst_path") or (t.get("func") or {}).get("fn_path") or "") is not None):
+            continue
+        B = I.inlined_body(F.lib, path)
+        if B is None:
+            continue
+        for bb, t in B.calls():
+            d = M.Body.callee_decl(t) or ""
+            loose = d.endswith(LOOSE_COMPARISONS)
+            if not (d.endswith(("cmp::PartialEq::eq", "cmp::PartialEq::ne")) or loose) or len(t.get("args") or []) != 2:
+                continue
+            sides = []
+            for a in t["args"]:
+                os_ = []
+                todo = list(M.trace(B, a, wide))
+                for _ in range(4):      # (the payload of `Some(x)` built for the comparison)
+                    nxt = []
+                    for o in todo:
+                        if o.kind == "aggregate" and o.rv.get("ak") == "adt" and o.rv.get("variant") == "Some" and o.rv.get("ops"):
+                            nxt += [Origin_with(o2, o.steps) for o2 in M.trace(B, o.rv["ops"][0], wide)]
+                        else:
+                            os_.append(o)
+                    todo = nxt
+                    if not todo:
+                        break
+                sides.append(os_)
+
+            def is_ns_name(o):
+                if "namespace" not in o.fields():
+                    return False
+                if o.kind == "arg":
+                    return "Namespace" in (B.local_ty(o.local) or "")
+                return True
+            if not any(is_ns_name(o) for os_ in sides for o in os_):
+                continue
+            n_cmp += 1
+            steps = [st_[1].rsplit("::", 1)[-1] for os_ in sides for o in os_ for st_ in (o.steps or []) if st_[0] == "call" and st_[1].rsplit("::", 1)[-1] in NAME_NORMALISERS]
+            short = path.split("::{closure", 1)[0].rsplit("::", 1)[-1]
+            site = t.get("sp")
+            if loose:
+                ck.violation(rule, f"namespace-compared-loosely:{short}:{d.rsplit('::', 1)[-1]}", site,
+                             f"{path}: a namespace name is compared with `{d.rsplit('::', 1)[-1]}`: namespace names are compared character for character; "
+                             f"two namespaces that differ where this comparison does not look become one registry entry (one prefix, one module for both)", fn=path)
+            elif steps:
+                ck.violation(rule, f"namespace-compared-normalised:{short}:{steps[0]}", site,
+                             f"{path}: a namespace name is compared after `{', '.join(sorted(set(steps)))}`: namespace names are compared character for "
+                             f"character (`http://example.com/orders` and `http://example.com/orders/` are two namespaces); the two would share one "
+                             f"registry entry, one prefix and one module, and the second one's types be written under the first one's name", fn=path)
+            else:
+                ck.ok(rule, f"namespace-compared-verbatim:{short}", site, "a namespace name is compared by equality of the full text", fn=path)
+    ck.floor(rule, "comparisons of namespace names", n_cmp, 4)
+
+
+def Origin_with(o, outer_steps):
+    o.steps = list(o.steps or []) + list(outer_steps or [])
+    return o
